@@ -18,6 +18,9 @@
 #include <unistd.h>
 #include <sys/wait.h>
 
+#ifndef VP_TLS
+#define VP_TLS
+#endif
 #define GW_MAXARGS 8
 #define GW_ARGLEN 48
 
@@ -185,8 +188,8 @@ static uint64_t gw_skip;          /* programs with ordinal < gw_skip are enumera
 static uint64_t gw_ordinal;
 static int gw_forked;             /* child of the fork/resume supervisor: a mismatch ends the child, the supervisor resumes after it */
 /* ---- current program (for sanitizer death callback) ---- */
-static const int *gw_cur_prog;
-static int gw_cur_n, gw_cur_step;
+static VP_TLS const int *gw_cur_prog;
+static VP_TLS int gw_cur_n, gw_cur_step;
 static void gw_print_stats(int complete);
 void __sanitizer_set_death_callback(void (*cb)(void));
 static void gw_death(void) {
@@ -224,7 +227,13 @@ static void gw_resume_exit(void) {
     fflush(stdout);
     _exit(77);
 }
+/* optional: collect programs instead of executing them (threaded replay) */
+static int **gw_coll; static int *gw_coll_len; static int gw_ncoll, gw_coll_cap;
 static int gw_exec(const int *prog, int n) {
+    if (gw_coll_cap) {
+        if (gw_ncoll < gw_coll_cap) { gw_coll[gw_ncoll] = malloc(sizeof(int) * n); memcpy(gw_coll[gw_ncoll], prog, sizeof(int) * n); gw_coll_len[gw_ncoll++] = n; }
+        return 0;
+    }
     int skipped = gw_ordinal++ < gw_skip;
     for (int i = 0; i < n; i++) if (!gw_edge_seen[prog[i]]) { gw_edge_seen[prog[i]] = 1; gw_edges_covered++; }
     int fresh = gw_hset_add(gw_hash(prog, n));
